@@ -292,6 +292,32 @@ def fam_death_starve(rng, n, tag="dstarve"):
         out.append(s)
     return out
 
+def fam_double_death(rng, n, tag="dd", expect=()):
+    """3-4 peers; two remote peers die within the same poll interval of the survivor while holding
+    different numbers of frames (different input delays / tick phases): the survivor must cut both off
+    at their own last frames, whatever order the two Disconnected events are handled in"""
+    out = []
+    for i in range(n):
+        n_peers = rng.choice([3, 3, 4])
+        w = rng.choice([2, 4, 8, 12])
+        to = rng.choice([600, 1000])
+        s = Scen("%s_%d" % (tag, i), players=n_peers, window=w, lat=rng.choice([5, 20]), seed=rng.randrange(1 << 30),
+                 sparse=rng.randrange(2), pred=rng.choice(["repeat", "default"]), inputrun=1, timeout=to, notify=rng.choice([200, 500]),
+                 expect=list(expect))
+        delays = [0, rng.choice([0, 1, 2, 3]), rng.choice([0, 2, 4]), 0][:n_peers]
+        for k in range(n_peers):
+            s.p2p(k + 1, [k], delay=delays[k])
+        v1, v2 = 2, 3
+        t_die = rng.randrange(500, 1500)
+        dt = rng.choice([0, 0, 3, 8, 15])
+        end = t_die + to + 2000
+        for p in range(1, n_peers + 1):
+            stop = end if p not in (v1, v2) else (t_die if p == v1 else t_die + dt)
+            s.ticks(p, rng.randrange(0, 16), stop, 16)
+        s.at(t_die, "kill", v1); s.at(t_die + dt, "kill", v2)
+        out.append(s)
+    return out
+
 def fam_delay(rng, n, tag="delay", expect=("nodisconnect",)):
     """C11: set_input_delay at arbitrary moments, values 0..=6, several local players with
     different delays, decrease-then-increase, changes while stalled, spectators attached"""
